@@ -342,19 +342,23 @@ def run(ctx):
             ctx.notes['schedule_deviations'] = ctx.notes.get('schedule_deviations', 0) + 1
         else:
             ctx.violation('als:trace', 'trace rejected (%s); problem %s' % (v['why'], mt), case={'meta': mt, 'trace': tr})
-    # rank-adaptive mode: ranks <= r, shape kept, documented stop
-    for t in range(6 if quick else 40):
-        d = int(rng.integers(3, 5))
+    # rank-adaptive mode: ranks <= r, shape kept, documented stop; exactly low-rank and noisy data, every value of the
+    # rank increment r_add (default, below r, 1) and of the adaptive threshold
+    for t in range(12 if quick else 80):
+        d = int(rng.integers(3, 6))
         n = [int(x) for x in rng.integers(2, 5, size=d)]
         T = teneva.rand(n, 2, seed=t)
         I = np.vstack([teneva.grid_flat(n)] if np.prod(n) <= 200 else [teneva.sample_lhs(n, 200, seed=t)])
         y = teneva.get_many(T, I)
-        r = int(rng.integers(2, 5))
+        if t % 2:
+            y = y + 0.05 * rng.normal(size=len(y))          # not exactly low rank: the ranks want to grow
+        r = int(rng.integers(2, 6))
+        kw = [{}, dict(r_add=1), dict(r_add=2, e_adap=1e-8), dict(r_add=max(1, r - 1), e_adap=1e-10), dict(e_adap=1e-10)][t % 5]
         info = {}
-        Y = teneva.als(I, y, teneva.rand(n, 1, seed=t + 1), nswp=2, r=r, info=info, lamb=1e-6)
+        Y = teneva.als(I, y, teneva.rand(n, [1, 2][t % 2] if t % 3 else 1, seed=t + 1), nswp=3, r=r, info=info, lamb=1e-6, **kw)
         ctx.case(key=('adaptive', t, ctx.seed), nontrivial=True)
-        ok = F.is_wellformed(Y, n) and max(G.shape[2] for G in Y) <= r and info['stop'] in ('nswp', 'e', 'e_vld') and info['nswp'] <= 2
-        ctx.check(ok, 'als:adaptive', 'rank-adaptive ALS: ranks %s (cap %d), stop %s' % ([G.shape[2] for G in Y] if isinstance(Y, list) else None, r, info.get('stop')))
+        ok = F.is_wellformed(Y, n) and max(G.shape[2] for G in Y) <= r and info['stop'] in ('nswp', 'e', 'e_vld') and info['nswp'] <= 3
+        ctx.check(ok, 'als:adaptive', 'rank-adaptive ALS (%s): ranks %s (cap %d), stop %s' % (kw, [G.shape[2] for G in Y] if isinstance(Y, list) else None, r, info.get('stop')))
     check_als_func(ctx, rng, quick)
     check_shared_info(ctx, rng)
     validate_repo_tests(ctx)
